@@ -3,7 +3,7 @@ from pyvc.verify import Post, Case, Equiv, NativeFacts
 from contracts import common
 
 PROPERTY = 'C13'
-REF_MODULES = ['ref_registry']
+REF_MODULES = ['ref_registry', 'ref_extra', 'ref_core']
 
 
 def config(cfg):
@@ -49,6 +49,8 @@ def contracts():
                         args={'self': 'inst:core.Glommer', 'target_type': 'ref', 'kwargs': kw}))
     cs.append(Equiv('core.Glommer.glom', 'ref_registry.glommer_glom_ref', args={'self': 'inst:core.Glommer', 'target': 'ref', 'spec': 'ref', 'kwargs': 'kw:default'}))
     cs.append(Equiv('core.register', 'ref_registry.module_register_ref', args={'target_type': 'ref', 'kwargs': 'kw:get'}))
+    from contracts import extra
+    cs += common.shared(extra, ['core.TargetRegistry._register_fuzzy_type', 'core.TargetRegistry.register_op'])
     return cs
 
 
